@@ -38,6 +38,9 @@ where
         }
 
         let index_list_end = self.data_block().start + self.data_block().cursor;
+        // lookups slice the whole heap: the start must be absolute like the end, otherwise stale
+        // CloneIndexMap cells left below the index list (by clone_data) are found first
+        let index_lookup_start = self.data_block().start + index_list_start;
 
         let offset = self.data_block().start + self.data_block().cursor - retained_data_end;
 
@@ -47,30 +50,30 @@ where
 
         for i in symbol_table_range {
             let (_symbol, data_index) = self.get_from_symbol_table_block_ensure_index(i)?;
-            let mapped_index = self.lookup_in_data_slice(index_list_start, index_list_end, data_index)?;
+            let mapped_index = self.lookup_in_data_slice(index_lookup_start, index_list_end, data_index)?;
 
             let (_symbol, data_index) = self.get_from_symbol_table_block_ensure_index_mut(i)?;
             *data_index = mapped_index;
         }
         
         if let Some(original_register) = original_register {
-            let mapped_index = self.lookup_in_data_slice(index_list_start, index_list_end, original_register)?;
+            let mapped_index = self.lookup_in_data_slice(index_lookup_start, index_list_end, original_register)?;
             self.set_current_register(Some(mapped_index));
         }
 
         if let Some(original_value) = original_value {
-            let mapped_index = self.lookup_in_data_slice(index_list_start, index_list_end, original_value)?;
+            let mapped_index = self.lookup_in_data_slice(index_lookup_start, index_list_end, original_value)?;
             self.set_current_value(Some(mapped_index));
         }
 
         if let Some(original_frame) = original_frame {
-            let mapped_index = self.lookup_in_data_slice(index_list_start, index_list_end, original_frame)?;
+            let mapped_index = self.lookup_in_data_slice(index_lookup_start, index_list_end, original_frame)?;
             self.set_current_frame(Some(mapped_index));
         }
 
         let mut mapped_indexes = vec![0; additional_data_retentions.len()];
         for (i, additional_data_retention) in additional_data_retentions.iter().enumerate() {
-            mapped_indexes[i] = self.lookup_in_data_slice(index_list_start, index_list_end, *additional_data_retention)?;
+            mapped_indexes[i] = self.lookup_in_data_slice(index_lookup_start, index_list_end, *additional_data_retention)?;
         }
 
         let new_data_end = self.data_block().start + self.data_block().cursor;
